@@ -212,6 +212,7 @@ type Machine struct {
 	schedPoints int
 	labels      []string
 	choices      []int
+	envDecisions int
 	modes        map[string]bool
 	pendingModel map[string]uint64
 	ids          int
@@ -398,10 +399,16 @@ func (m *Machine) decideN(n int, tag string) int {
 		if m.pos == len(m.trail) {
 			m.adoptPending()
 		}
+		if d != 0 && (strings.HasPrefix(tag, "sched") || strings.HasPrefix(tag, "switch") || strings.HasPrefix(tag, "select") || strings.HasPrefix(tag, "crash") || strings.HasPrefix(tag, "shuffle") || strings.HasPrefix(tag, "maporder")) {
+			m.nontrivial = true // a schedule / crash / order alternative other than the default
+		}
 		if d >= n {
 			m.unsupported(fmt.Sprintf("trail out of range at %s: %d >= %d", tag, d, n))
 		}
 		return d
+	}
+	if strings.HasPrefix(tag, "sched") || strings.HasPrefix(tag, "switch") || strings.HasPrefix(tag, "select") || strings.HasPrefix(tag, "crash") || strings.HasPrefix(tag, "shuffle") || strings.HasPrefix(tag, "maporder") {
+		m.envDecisions++
 	}
 	// frontier: all n alternatives are feasible (pure choice); queue the others
 	for i := n - 1; i >= 1; i-- {
